@@ -208,7 +208,7 @@ def allExecsSafe (main cleanup : List Step) : Bool :=
 /-- the complete main path ends with the data fsynced and the rename made durable -/
 def durableAtEnd (main : List Step) : Bool :=
   match absRun {} main with
-  | some a => a.renameDurable && !a.dirty && a.content == .full
+  | some a => a.renameDurable && a.renamed && !a.dirty && a.content == .full
   | none => false
 
 /-! ### names: temporary files never look like repository files -/
